@@ -228,12 +228,52 @@ pub fn run_session(mem: &MemFile, s: &Session) -> Result<(), Violation> {
   let rdonly = unsafe { libc::open(devnull.as_ptr(), libc::O_RDONLY | libc::O_CLOEXEC) };
   let mut w = DevInputWriter::verif_from_fd(x);
   let mut result = Ok(());
+  // records (type, code, value) of the failed / short-written batches since the last good one
+  let mut pending: Vec<(u16, u16, i32)> = Vec::new();
+  fn push_records(pending: &mut Vec<(u16, u16, i32)>, b: &Vec<Event>) {
+    for e in b {
+      match e {
+        Event::Pressed(k) => pending.push((1, *k as i32 as u16, 1)),
+        Event::Released(k) => pending.push((1, *k as i32 as u16, 0)),
+      }
+    }
+    pending.push((0, 0, 0));
+  }
   for (i, op) in s.ops.iter().enumerate() {
     match op {
       SessOp::Good(b) => {
         unsafe { libc::dup2(mem.fd, x) };
         mem.reset();
-        let r = w.send(b).map_err(|e| Violation::new("write-failed", format!("batch {} of the session ({} events) failed: {}", i, b.len(), e))).and_then(|_| verify_bytes(&mem.contents(), b));
+        let r = w.send(b).map_err(|e| Violation::new("write-failed", format!("batch {} of the session ({} events) failed: {}", i, b.len(), e))).and_then(|_| {
+          let bytes = mem.contents();
+          let e_len = (b.len() + 1) * REC;
+          if bytes.len() <= e_len {
+            return verify_bytes(&bytes, b);
+          }
+          // more bytes than this batch needs: the batch itself must stand at the end, and what
+          // precedes it may only be the unwritten rest of the failed / short-written batches
+          // before it (a writer that completes an interrupted batch first keeps the property)
+          let (prefix, own) = bytes.split_at(bytes.len() - e_len);
+          verify_bytes(own, b)?;
+          let full = prefix.len() / REC;
+          let part = if prefix.len() % REC > 0 { 1 } else { 0 };
+          let mut ok = full + part <= pending.len();
+          if ok {
+            for j in 0..full {
+              let r = decode_record(&prefix[prefix.len() - (j + 1) * REC..]);
+              if (r.type_, r.code, r.value) != pending[pending.len() - 1 - j] {
+                ok = false;
+                break;
+              }
+            }
+          }
+          if ok {
+            Ok(())
+          } else {
+            Err(Violation::new("wrong-record-size", format!("a batch of {} events was written as {} bytes; its own {} bytes are preceded by {} bytes that are not the unwritten rest of an earlier failed batch", b.len(), bytes.len(), e_len, prefix.len())))
+          }
+        });
+        pending.clear();
         if let Err(mut v) = r {
           v.detail = format!("batch {} of a session through one writer (after {} earlier batches, see the replay file): {}", i, i, v.detail);
           result = Err(v);
@@ -241,6 +281,7 @@ pub fn run_session(mem: &MemFile, s: &Session) -> Result<(), Violation> {
         }
       }
       SessOp::Rejected(b) => {
+        push_records(&mut pending, b);
         if rdonly >= 0 {
           unsafe { libc::dup2(rdonly, x) };
           let _ = w.send(b);
@@ -248,6 +289,7 @@ pub fn run_session(mem: &MemFile, s: &Session) -> Result<(), Violation> {
         }
       }
       SessOp::Congested(b, free) => {
+        push_records(&mut pending, b);
         let p = Pipe::new();
         let cap = unsafe { libc::fcntl(p.w, libc::F_SETPIPE_SZ, 16384) };
         let cap = if cap > 0 { cap as usize } else { 65536 };
